@@ -16,7 +16,8 @@ from ..base import Result
 ID = "C05"
 RULE = ("Random op sequences (fill-drain / Dijkstra-like / random mixes; capacities 1..64 quick, ..200 thorough; "
         "both policies; cost alphabets {0,1,2}, small ints, Gaussian floats, +-FLOAT_MAX) plus a bounded exhaustive "
-        "sweep of all legal sequences over capacity<=3, costs {0,1,2}. Non-trivial: capacity>=3, >=2 successful "
+        "sweep of all legal sequences over capacity<=3, costs {0,1,2}, plus live traffic: real supervised / semi / KNN / unsupervised fits with an "
+        "in-situ oracle on every Heap.remove (removed element has the extremal cost among all queued). Non-trivial: capacity>=3, >=2 successful "
         "removes and >=1 strictly improving update of a queued element; distinct = distinct op-sequence hash.")
 ASSUMPTIONS = [
     "ids are inserted at most once (never re-inserted after removal) and updates only improve in the policy's direction or keep the cost — the statement's premise",
@@ -28,7 +29,7 @@ BUDGET = {
     "thorough": {"cases": 150000, "seconds": 420, "shards": 16},
 }
 REQUIRED_OBS = ["remove_ok", "update_queued_improve", "insert_full_refused", "remove_empty_refused",
-                "update_white_inserts", "tie_at_remove", "drained_heaps"]
+                "update_white_inserts", "tie_at_remove", "drained_heaps", "exhaustive_sequences", "live_removes", "live_decrease_keys"]
 MIN_NONTRIVIAL = 200
 
 FLOAT_MAX = sys.float_info.max
@@ -257,7 +258,37 @@ def generate(rng, tier, idx):
 
 
 def check(case):
+    if case.get("live"):
+        return _live(case)
     return run_ops(int(case["size"]), case["policy"], case["ops"])
+
+
+def _live(case):
+    """Live traffic: a real model fit with the in-situ priority-queue oracle on every Heap.remove (the element removed
+    must have the extremal cost among all queued elements) — min-policy heaps in Prim / the competition, max-policy
+    heaps in the density clustering."""
+    from .. import hooks, knncase, supcase
+
+    res = Result()
+    rec = hooks.Recorder()
+    with hooks.patched(rec, hooks.heap_targets()):
+        if case["live"] == "sup":
+            o = supcase.run_case(case["model_case"], with_prim_hook=False, with_heap_hooks=False)
+            ok = o.fit.ok
+        else:
+            _m, call = knncase.fit_model(case["model_case"])
+            ok = call.ok
+    res.see("live_fits")
+    res.see("live_removes", rec.count("heap_remove"))
+    res.see("live_decrease_keys", rec.count("heap_update_gray"))
+    for msg in rec.of("heap_live_violation"):
+        res.violate("live", "C05/remove-not-extremal", f"during a real {case['live']} fit: {msg}")
+        break
+    if not ok:
+        res.see("live_fit_aborted")
+    res.nontrivial = False
+    res.cell("live", case["live"])
+    return res
 
 
 def shrink(case):
@@ -287,7 +318,30 @@ def _legal_next(size, policy, queued, white, alphabet):
         yield ("ins_full", 0)
 
 
+def _live_cases(tier, seed, shard, nshards):
+    from .. import gen, knncase, supcase
+    from ..shard import case_rng
+
+    n = 40 if tier == "quick" else 400
+    for i in range(shard, n, nshards):
+        rng = case_rng(seed, "C05", 10_000_000 + i)
+        if i % 2 == 0:
+            mc = supcase.gen_case(rng, tier, semi=bool(i % 4 == 2), metrics=gen.SAFE_METRICS, nq=1)
+            yield {"live": "sup", "model_case": mc}
+        else:
+            mc = knncase.gen_knn_case(rng, tier, metrics=gen.SAFE_METRICS)
+            if mc["max_k"] <= len(mc["X"]) - 1:
+                yield {"live": "knn", "model_case": mc}
+
+
 def extra(tier, seed, shard=0, nshards=1):
+    out = _exhaustive(tier, seed, shard, nshards)
+    for case in _live_cases(tier, seed, shard, nshards):
+        out.append((case, _live(case)))
+    return out
+
+
+def _exhaustive(tier, seed, shard=0, nshards=1):
     """All legal sequences up to length L over capacity<=3 and costs {0,1,2}; ties at remove are followed
     on the REAL heap's choice (the sequence is replayed from scratch, so the model stays exact)."""
     L = 5 if tier == "quick" else 7
